@@ -227,6 +227,18 @@ func H_C18_noninterference() {
 	dx0, _ := Map(dec0).Json()
 	sdec0, _ := NewMapXmlSeq([]byte("<r a=\"&lt;&amp;\" p:b=\"&gt;\">&amp;<b/></r>"))
 	sdx0, _ := Map(sdec0).Json()
+	// documented for LeafNodes: with no attribute prefix the no-attributes option still drops the text-key segment
+	SetAttrPrefix("")
+	lp0 := Map{"a": map[string]interface{}{"#text": "t", "k": "1"}}.LeafPaths(NoAttributes)
+	SetAttrPrefix("-")
+	hasA := false
+	for _, p := range lp0 {
+		if p == "a" {
+			hasA = true
+		}
+		vAssert(p != "a.#text", "options: an empty attribute prefix leaves the text-key handling of the no-attributes option as documented")
+	}
+	vAssert(hasA && len(lp0) == 2, "options: an empty attribute prefix leaves the text-key handling of the no-attributes option as documented")
 	switch which {
 	case 0: // attribute prefix and key case do not affect the sequence codec or JSON
 		SetAttrPrefix([]string{"@", ""}[vChoose(2)])
